@@ -151,6 +151,18 @@ UNITS.append(Unit('out.file.dtor', ('@_ZN4CDNS6WriterINSt7__cxx1112basic_stringI
                   setup='  static struct Writer_str obj;\n  __CPROVER_assume(!g_f_order_bad && !g_f_renamed && obj.m_out.open_ == g_f_open && g_f_nrename == 0);\n', args=['&obj'],
                   props=['C15'], timeout=300,
                   note='destruction of the named-file writer: flush, close, then one rename; never throws'))
+WS_R16 = '''
+__CPROVER_requires(__CPROVER_w_ok($this, sizeof(*$this)) && __CPROVER_r_ok($1, sizeof(*$1)) && g_exc == 0 && !g_f_order_bad && !g_f_renamed && $this->m_out.open_ == g_f_open && g_f_nrename == 0)
+__CPROVER_requires($1->which == 1 && g_f_open && ($this->m_out.failed != 0) == (g_lost != 0))
+__CPROVER_assigns($this->m_out, $this->m_value, g_f_open, g_f_flushed, g_f_renamed, g_f_order_bad, g_f_nrename, g_lost, g_exc)
+__CPROVER_ensures(@L0 ==> g_exc != 0)
+'''
+UNITS.append(Unit('out.file.rotate_output.c16', ('@_ZN4CDNS6WriterINSt7__cxx1112basic_stringIcSt11char_traitsIcESaIcEEEE13rotate_outputERKN5boost3anyE', None), contract=WS_R16, prelude=P, opaque=WS_OPQ,
+                  inline=[('@_ZN4CDNS6WriterINSt7__cxx1112basic_stringIcSt11char_traitsIcESaIcEEEE5closeEv', None), ('@_ZN4CDNS6WriterINSt7__cxx1112basic_stringIcSt11char_traitsIcESaIcEEEE4openEv', None)],
+                  ghost=[('_Bool', 'L0', 'g_lost')], stubs=['ofstream__\\w+', 'lib_rename', 'cstring__\\w+', 'any\\w+', 'typeid__\\w+', 'type_info__\\w+'],
+                  setup='  static struct Writer_str obj; static struct any val;\n  __CPROVER_assume(!g_f_order_bad && !g_f_renamed && obj.m_out.open_ == g_f_open && g_f_nrename == 0 && val.which == 1 && g_f_open && (obj.m_out.failed != 0) == (g_lost != 0));\n', args=['&obj', '&val'],
+                  props=['C16'], timeout=300,
+                  note='named output whose stream already rejected bytes (failbit set): the rotate_output that closes it must not return normally (known finding)'))
 TRUSTED_BASE = ['A10 zlib deflate/deflateInit2/deflateEnd per the zlib manual (consumes a prefix of next_in, produces a prefix of next_out, updates the four fields; '
                 'progress and eventual Z_STREAM_END assumed); decompress(output) == input rests on zlib itself',
                 'A11 std::ofstream / std::rename / ::write / fstat as ghost event automata with nondeterministic failures; POSIX rename atomicity',
